@@ -124,8 +124,9 @@ class ComparisonResult:
     for name in utils.get_output_tensor_names(
         self._reference_model, signature_key
     ):
-      # A tensor may be listed more than once among the signature outputs.
-      if name not in output_tensor_results:
+      # A tensor may be listed more than once among the signature outputs, and
+      # a signature input may be returned as an output: file it once.
+      if name not in output_tensor_results and name not in input_tensor_results:
         output_tensor_results[name] = result.pop(name)
 
     constant_tensor_results = {}
